@@ -579,6 +579,13 @@ theorem WMVar.get_mul (a b : WMVar I) (i : Nat) :
 
 theorem WMVar.get_one (i : Nat) : mdGet (1 : WMVar I).1.d i = 0 := rfl
 
+/-- forget the invariant -/
+def WMVar.val (a : WMVar I) : MVar I := a.1
+theorem WMVar.val_injective : Function.Injective (WMVar.val (I := I)) := fun a b h => Subtype.ext h
+theorem WMVar.val_mul (a b : WMVar I) : (a * b).val = a.val * b.val := rfl
+theorem WMVar.val_one : (1 : WMVar I).val = 1 := rfl
+theorem WMVar.val_wf (a : WMVar I) : MDWF a.val.d := a.2
+
 instance : CommMonoid (WMVar I) where
   mul_assoc a b c := WMVar.ext' (fun i => by simp only [WMVar.get_mul, add_assoc])
   one_mul a := WMVar.ext' (fun i => by simp only [WMVar.get_mul, WMVar.get_one, zero_add])
